@@ -7,7 +7,10 @@ if ! git apply --check /verif/seeded/$NAME/patch.diff 2>/dev/null; then
   if git apply --3way --check /verif/seeded/$NAME/patch.diff 2>/dev/null; then MODE=--3way; else echo "SEED $NAME: patch does not apply to current /repo"; exit 3; fi
 fi
 git apply $MODE /verif/seeded/$NAME/patch.diff
+# the evidence file describes the unchanged tree: keep it aside while the check runs against the seeded change
+[ -f /verif/evidence/$PID.json ] && cp /verif/evidence/$PID.json /tmp/evidence_keep_$PID.json
 cd /verif && ./check $PID --tier $TIER > /tmp/try_${NAME}_${PID}.out 2> /tmp/try_${NAME}_${PID}.err; RC=$?
+[ -f /tmp/evidence_keep_$PID.json ] && mv /tmp/evidence_keep_$PID.json /verif/evidence/$PID.json
 cd /repo && git checkout -- . && git reset -q
 echo "SEED $NAME vs $PID ($TIER): exit=$RC $(grep -c '^VIOLATION' /tmp/try_${NAME}_${PID}.out) violation line(s)"
 grep -A1 '^VIOLATION' /tmp/try_${NAME}_${PID}.out | head -4; grep -E '^\s+\[' /tmp/try_${NAME}_${PID}.err | head -3 | cut -c1-300
